@@ -19,8 +19,17 @@ contract(
         "len(self.referenced_hash_lists) == 0",
         "len(self.hash_list_references) == 0",
     ],
-    trusted=True,
-    note="constructor of a plain record class (field initialisers); its MHLProcessInfo() builds an MHLIgnoreSpec, covered by the ignore.py contracts",
+    props=["C04"],
+)
+contract(
+    "ascmhl.hashlist.MHLProcessInfo.__init__",
+    modifies=["self.process", "self.root_media_hash", "self.ignore_spec", "self.hashlist_custom_basename"],
+    ensures=[
+        "self.process is None",
+        "self.root_media_hash is None",
+        "self.hashlist_custom_basename is None",
+        "fresh(self.ignore_spec)",
+    ],
     props=["C04"],
 )
 
